@@ -399,6 +399,35 @@ class MemGate:
             self.cv.notify_all()
 
 
+COMMON_ASSUMPTIONS = [
+    "cbmc 6.11.0 C semantics (gnu99, LP64) stand for the compiled code; compiler and optimisation level are outside",
+    "exception_throw is replaced by a path-ending recorder/oracle (message formatting is environment)",
+    "memcpy/memmove/memset are the word-wise models of lib/ (ISO C contract), libc string functions those of lib/vlibc.c",
+    "allocation never fails unless the obligation injects the failure; heap models are the fixed-capacity ledgers of lib/env_*.c",
+    "bounds: every loop is unwound to the per-obligation unwindset with --unwinding-assertions; an obligation whose bound is too small is reported, not passed",
+]
+def evidence_assumptions(prop, results):
+    """Every stub and assume is part of the claim: the per-property trusted base (LEVEL_NOTE), the assume-guarantee
+    replacements actually used by the obligations of this run, and the environment models common to all harnesses."""
+    out = list(getattr(prop, "ASSUMPTIONS", []) or [])
+    note = getattr(prop, "LEVEL_NOTE", "") or ""
+    if note.startswith("Trusted:"):
+        note = note[len("Trusted:"):]
+    out += [x.strip() for x in note.split(";") if x.strip()]
+    repl = set()
+    for o in getattr(prop, "OBLIGATIONS", []):
+        for rc in (getattr(o, "replace_calls", None) or []):
+            repl.add(rc)
+    ran = set(r["name"] for r in results)
+    used = set()
+    for o in getattr(prop, "OBLIGATIONS", []):
+        if o.name in ran:
+            for rc in (getattr(o, "replace_calls", None) or []):
+                used.add(rc)
+    if used:
+        out.append("calls replaced by harness models inside the steps (callee:model, assume-guarantee): " + ", ".join(sorted(used)))
+    return out + COMMON_ASSUMPTIONS
+
 def check_property(prop, tier, only=None, verbose=True, jobs=None):
     """prop: module with ID, OBLIGATIONS, ASSUMPTIONS, FUNCTIONS, LEVEL, EXPLANATION"""
     t0 = time.time()
@@ -523,7 +552,7 @@ def finish(prop, tier, seed, results, known, fixed, build_err, wall, obs):
                                  failures=[dict(assertion=p["description"], replay=p.get("replay"), inputs=p["inputs"]) for p in r["failures"][:4]])
                             for r in results],
         ),
-        assumptions=prop.ASSUMPTIONS,
+        assumptions=evidence_assumptions(prop, results),
         wall_s=round(wall, 1),
         violations=len(violations),
     )
